@@ -23,6 +23,10 @@ pub struct Args {
     /// multiplies case budgets (sanitizer legs use < 1)
     pub scale: f64,
     pub leg: String,
+    /// process-level sharding (sanitizer legs run several processes): this process handles
+    /// the case ids with id % shards == shard
+    pub shard: u64,
+    pub shards: u64,
     pub extra: BTreeMap<String, String>,
 }
 
@@ -37,6 +41,8 @@ impl Args {
             threads: 1,
             scale: 1.0,
             leg: "native".into(),
+            shard: 0,
+            shards: 1,
             extra: BTreeMap::new(),
         };
         let argv: Vec<String> = std::env::args().skip(1).collect();
@@ -52,6 +58,8 @@ impl Args {
                 "--threads" => a.threads = v.parse().expect("--threads"),
                 "--scale" => a.scale = v.parse().expect("--scale"),
                 "--leg" => a.leg = v,
+                "--shard" => a.shard = v.parse().expect("--shard"),
+                "--shards" => a.shards = v.parse::<u64>().expect("--shards").max(1),
                 other => {
                     if let Some(name) = other.strip_prefix("--") {
                         a.extra.insert(name.to_string(), v);
@@ -74,6 +82,11 @@ impl Args {
     pub fn budget(&self, quick: u64, thorough: u64) -> u64 {
         let b = if self.thorough() { thorough } else { quick };
         ((b as f64 * self.scale).ceil() as u64).max(1)
+    }
+
+    /// does this process handle case `id`?
+    pub fn mine(&self, id: u64) -> bool {
+        id % self.shards == self.shard
     }
 
     pub fn extra_u64(&self, k: &str) -> Option<u64> {
@@ -289,6 +302,7 @@ pub fn run_sharded(
     work: impl Fn(u64, &mut Ev, &mut EventLog) + Sync,
 ) -> Ev {
     let threads = args.threads.max(1);
+    let (shard, shards) = (args.shard, args.shards);
     let mut total = Ev::new();
     if let Some(only) = args.only {
         let mut log = EventLog::create(&args.out, 0);
@@ -306,7 +320,9 @@ pub fn run_sharded(
                     let mut log = EventLog::create(&out, t);
                     let mut i = t as u64;
                     while i < n {
-                        work(i, &mut ev, &mut log);
+                        if i % shards == shard {
+                            work(i, &mut ev, &mut log);
+                        }
                         i += threads as u64;
                     }
                     log.close();
